@@ -2,7 +2,7 @@
 import json, os, random
 import vlib
 
-FONTS = [os.path.join(vlib.REPO, "tests/fonts", f) for f in ("charis_r_gr.ttf", "Padauk.ttf", "Scheherazadegr.ttf")]
+FONTS = [os.path.join(vlib.REPO, "tests/fonts", f) for f in ("charis_r_gr.ttf", "Scheherazadegr.ttf", "Padauk.ttf")]      # the second one maps U+0000 to a glyph
 
 
 def cfg_with(base, tmp, **consts):
